@@ -57,10 +57,10 @@ type options struct {
 
 	activeFields *fieldSet
 
-	// references whose value is being unpacked into a target of some type:
-	// reaching one of them again for the same type below itself is a cycle
-	// (the target type may be recursive, so the types alone do not end the
-	// descent)
+	// references - and primitives read as lists - whose value is being unpacked
+	// into a target of some type: reaching one of them again for the same type
+	// below itself never ends (the target type may be recursive, so the types
+	// alone do not end the descent)
 	unpacking map[unpackingRef]struct{}
 
 	ignoreCommas bool
@@ -278,7 +278,7 @@ var VarExp Option = doVarExp
 func doVarExp(o *options) { o.varexp = true }
 
 type unpackingRef struct {
-	ref *cfgDynamic
+	val value
 	typ reflect.Type
 }
 
